@@ -134,9 +134,20 @@ def run_batch(item):
                         msgs.append(W.Parse(pt.get('name', ''), sql))
                         if pt.get('run', True):
                             msgs += [W.Bind('', pt.get('name', '')), W.Execute()]
-                    msgs.append(W.Sync())
-                    c.send(b''.join(msgs))
-                    rep = c.read_reply(timeout=st.get('timeout', 4.0))
+                    if st.get('flush'):
+                        # the batch is flushed first (as drivers do for a prepare round trip) and synced afterwards
+                        from .client import Reply
+                        c.send(b''.join(msgs) + W.msg(b'H', b''))
+                        # (a batch the pooler refuses at the Flush is answered with ErrorResponse + ReadyForQuery at once,
+                        # and the Sync gets a ReadyForQuery of its own)
+                        r1 = c.read_reply(timeout=0.5)
+                        c.send(W.Sync())
+                        r2 = c.read_reply(timeout=st.get('timeout', 4.0))
+                        rep = Reply(r1.msgs + r2.msgs, r2.end)
+                    else:
+                        msgs.append(W.Sync())
+                        c.send(b''.join(msgs))
+                        rep = c.read_reply(timeout=st.get('timeout', 4.0))
                 elif kind == 'raw':
                     c.send(st['bytes'])
                     rep = c.read_reply(timeout=st.get('timeout', 4.0))
